@@ -78,7 +78,7 @@ def error_path_jobs(evs, n):
 def judge(chk, drive, jobs, module, cfg, nshards, tags_wanted, shard_key=None, heap="3g", describe=None, timeout=3000, pairs=40):
     """Runs jobs, validates events, reports reproduced bad tags selected by tags_wanted(ev, tag). Returns (events, extras)."""
     evs = vlib.run_drive(drive, jobs, chk.work)
-    shards = vlib.shard(evs, nshards, key=shard_key)
+    shards = vlib.shard([e for e in evs if e.get("op") != "poke"], nshards, key=shard_key)      # a "poke" carries no observation (see cmd/drive)
     acc, bad, st, tr, extras = vlib.validate_traces(chk.work, module, cfg, shards, timeout=timeout, heap=heap, want_extra=True)
     chk.cov["states"] += st
     chk.cov["transitions"] += tr
@@ -148,7 +148,8 @@ def judge_multi(chk, drive, jobs, tags_wanted, nshards=14, describe=None, timeou
     evs = vlib.run_drive(drive, jobs, chk.work)
     byfam = {}
     for e in evs:
-        byfam.setdefault(module_of(e), []).append(e)
+        if e.get("op") != "poke":          # a "poke" carries no observation (see cmd/drive): only the calls after it are judged
+            byfam.setdefault(module_of(e), []).append(e)
     total = sum(vlib._weight(e) for e in evs) or 1
     allbad, allextras = [], {}
     for mod, fevs in byfam.items():
@@ -338,6 +339,14 @@ def ean_jobs(rng, quick):
     add(U("123456") + [0xc3, 0xa9])          # 8 bytes, multi-byte rune
     add(U("12345") + [0xd9, 0xa1])           # 7 bytes with an Arabic-Indic digit
     add(U("1234567891") + [0xef, 0xbc, 0x91])
+    # sequences in which a call's content is a prefix / extension of the previous one (a remembered last symbol matched by prefix)
+    for _ in range(6 if quick else 40):
+        d12 = rnd(12)
+        full13 = d12 + gen.ean_check(d12)
+        d7 = full13[:7]
+        full8 = d7 + gen.ean_check(d7)
+        for s13 in (full13, d7, full8, d12, full13, full8, full13[:8], d7, full13, d12[:7], d12):
+            add(s13)
     # every value of the weighted digit sum (EAN-13: 0..216, EAN-8: 0..135) that the check-digit arithmetic can meet, built constructively
     def with_sum(n, target):
         w = [3 if (n - 1 - k) % 2 == 0 else 1 for k in range(n)]       # weights from the right: 3, 1, 3, ...
@@ -416,6 +425,10 @@ def c39_93_jobs(rng, quick, sym):
             for _ in range(80 if quick else 800):
                 n = rng.choice([3, 4, 7, 14, 15, 16, 19, 20, 21, 22, 40, 60])
                 add("".join(rng.choice(alpha) for _ in range(n)), cs, full)
+            # very long texts (no symbology limit): accumulators of check characters and widths grow with the length
+            for n in ((120, 300) if quick else (100, 120, 150, 200, 300, 500, 800)):
+                add("".join(rng.choice(alpha) for _ in range(n)), cs, full)
+                add(rng.choice(["%", "Z", "+"] if not full else ["~", "z", "\x7f"]) * n, cs, full)
             for bad in ["*", "A*B", "a", "\u0080", "ÿ", "ñ", "ñA", "�", "Aé"]:
                 add(bad, cs, full)
             add([65, 0xff], cs, full)
@@ -448,6 +461,9 @@ def codabar_jobs(rng, quick):
         elif r < 0.25:
             s = rng.choice(["x", " ", "1"]) + s
         add(s)
+    for n in ((150, 600) if quick else (100, 150, 300, 600, 1000, 2000)):          # very long texts
+        add("A" + "".join(rng.choice(chars[:16]) for _ in range(n)) + "D")
+        add("B" + rng.choice(":/.+") * n + "C")
     for s in ["!", "A!", "!A", "A1B\n", "\nA1B", "A1BA2B", "a1b", "AéB", "A1B!", "AA", "AB", "ABCD", "A", "A1", "1A"]:
         add(s)
     add([65, 0xff, 66])
@@ -468,6 +484,11 @@ def tof_jobs(rng, quick):
         s = "".join(rng.choice("0123456789") for _ in range(n))
         out.append(gen.enc("25", U(s), (rng.randint(0, 1),)))
         out.append(dict(op="addchecksum", content=U(s)))
+    for n in ((146, 148, 228, 230, 600) if quick else (100, 146, 147, 148, 150, 200, 226, 228, 230, 300, 500, 1000, 2000)):    # very long numbers
+        for s in ("".join(rng.choice("0123456789") for _ in range(n)), "9" * n, "7" * n):
+            for il in (0, 1):
+                out.append(gen.enc("25", U(s), (il,)))
+            out.append(dict(op="addchecksum", content=U(s)))
     for base in ["1234", "123456", "12"]:
         for pos in range(len(base) + 1):
             for ch in ["A", " ", "-", "é", "١", "１"]:
